@@ -52,6 +52,12 @@ def jobs(tier):
         js.append(l2_job("C03.errno.NF%d.m%d.fixed%d" % (nf, full, e), "l2/c03_errno.c",
                          defines={"NF": nf, "READY_MASK": full, "ONESHOT": 0, "DESC": 0, "ERRNO_FIXED": e},
                          symbolic=["quit code (uint8)"], bounds="errno=%d concrete (regression companion)" % e, unwind=13))
+    for err, nm in ((4, "eintr"), (11, "eagain"), (9, "ebadf")):
+        js.append(l2_job("C03.pollfail.%s" % nm, "l2/c03_pollfail.c", defines={"PERR": err},
+                         symbolic=["quit code (uint8)", "errno left by callbacks (int)"],
+                         bounds="the poll call fails once with errno %d" % err, unwind=13))
+    js.append(l2_job("C03.oneshot.regex", "l2/c03_oneshot_rx.c", symbolic=["errno left by callbacks (int)"],
+                     bounds="one-shot subscription on a regular expression, two matching publishes", unwind=13))
     return js
 
 
